@@ -824,6 +824,33 @@ func (g *gen) wireCase(o slip.Object) (term string, d caseDesc, ok bool) {
 	return term, d, true
 }
 
+type repairedCase struct {
+	id string
+	c  cfg
+	o  slip.Object
+}
+
+// repairedCases lists, per repaired finding, objects of the shape that used to fail together with the printer
+// configuration under which they failed; they are printed, read back and judged like every other pair.
+func repairedCases() (out []repairedCase) {
+	flat := cfg{base: 10, pcase: "down", margin: -1, readably: true, escape: true, array: true}
+	pretty := flat
+	pretty.pretty, pretty.margin = true, 80
+	with := func(c cfg, f func(c *cfg)) cfg { f(&c); return c }
+	// C03-2: the empty symbol inside a list, pretty, :capitalize (Go index panic)
+	capPretty := with(pretty, func(c *cfg) { c.pcase = "cap" })
+	for _, o := range []slip.Object{
+		slip.List{slip.Symbol("")},
+		slip.List{slip.List{slip.Symbol(""), slip.Symbol("a")}, slip.Symbol("")},
+		slip.NewVector(2, slip.TrueSymbol, nil, slip.List{slip.Symbol(""), slip.Fixnum(1)}, false),
+		slip.List{slip.Symbol("x"), slip.Tail{Value: slip.Symbol("")}},
+	} {
+		out = append(out, repairedCase{"C03-2", capPretty, o})
+		out = append(out, repairedCase{"C03-2", with(capPretty, func(c *cfg) { c.margin = 3 }), o})
+	}
+	return
+}
+
 func firstValue(o slip.Object) slip.Object {
 	if vs, ok := o.(slip.Values); ok {
 		if len(vs) == 0 {
@@ -941,6 +968,12 @@ func Run(ctx *common.Ctx) {
 		terms = append(terms, term)
 		descs = append(descs, d)
 		ctx.Hist("wire:message")
+	}
+	// part E: the inputs of repaired findings (repo_fixes C03-2 ...), under the configurations that used to fail
+	for _, rc := range repairedCases() {
+		add(rc.c, rc.o, false)
+		add(rc.c, rc.o, true)
+		ctx.Hist("repaired:" + rc.id)
 	}
 	_ = utf8.RuneError
 	ctx.Meta.DistinctNontrivial = len(distinct)
